@@ -170,16 +170,18 @@ namespace internal
 		explicit DataRawMultiHashIterator() noexcept
 			: mRaw0(nullptr),
 			mRawBegin(),
-			mRawIndex(0)
+			mRawIndex(0),
+			mRawCount(0)
 		{
 		}
 
 		explicit DataRawMultiHashIterator(RawPtr raw0, RawIterator rawBegin, size_t rawIndex,
-			VersionKeeper version) noexcept
+			size_t rawCount, VersionKeeper version) noexcept
 			: VersionKeeper(version),
 			mRaw0(raw0),
 			mRawBegin(rawBegin),
-			mRawIndex(static_cast<ptrdiff_t>(rawIndex))
+			mRawIndex(static_cast<ptrdiff_t>(rawIndex)),
+			mRawCount(static_cast<ptrdiff_t>(rawCount))
 		{
 		}
 
@@ -192,7 +194,7 @@ namespace internal
 				VersionKeeper::Check();
 				MOMO_CHECK(mRaw0 != nullptr);
 				ptrdiff_t newRawIndex = mRawIndex + diff;
-				MOMO_CHECK(newRawIndex >= 0);
+				MOMO_CHECK(newRawIndex >= 0 && newRawIndex <= mRawCount);
 				MOMO_CHECK(mRawBegin != RawIterator() || newRawIndex <= 1);
 				mRawIndex = newRawIndex;
 			}
@@ -208,6 +210,7 @@ namespace internal
 		Pointer operator->() const
 		{
 			VersionKeeper::Check();
+			MOMO_CHECK(mRawIndex < mRawCount);
 			if (mRawIndex > 0)
 			{
 				MOMO_CHECK(mRawBegin != RawIterator());
@@ -246,6 +249,7 @@ namespace internal
 		RawPtr mRaw0;
 		RawIterator mRawBegin;
 		ptrdiff_t mRawIndex;
+		ptrdiff_t mRawCount;
 	};
 
 	template<typename TRawIterator, typename TSettings>
@@ -284,12 +288,12 @@ namespace internal
 
 		Iterator GetBegin() const noexcept
 		{
-			return Iterator(mRaw0, mRawBegin, 0, *this);
+			return Iterator(mRaw0, mRawBegin, 0, mRawCount, *this);
 		}
 
 		Iterator GetEnd() const noexcept
 		{
-			return Iterator(mRaw0, mRawBegin, mRawCount, *this);
+			return Iterator(mRaw0, mRawBegin, mRawCount, mRawCount, *this);
 		}
 
 		MOMO_FRIENDS_SIZE_BEGIN_END_CONST(DataRawMultiHashBounds, Iterator)
